@@ -19,6 +19,7 @@ from hypothesis import strategies as st
 
 from .. import refeval
 from ..runner import V
+from ..engine import is_engine_exception as _is_engine_exception
 
 import pokerkit
 from pokerkit import (
@@ -127,6 +128,8 @@ def extra(tier, seed, stats):
                            f' expected {len(want)} hands'))
             return
         except Exception as e:  # noqa: BLE001
+            if not _is_engine_exception(e):
+                raise     # harness fault: exit 2
             viols.append(V(ID, 'range', 'exception',
                            f'parse_range({text!r}, {order}) raised {e!r}'))
             return
@@ -416,6 +419,8 @@ def check(case, stats):
         try:
             got, _ = engine_range(case['text'], 'STANDARD')
         except Exception as e:  # noqa: BLE001
+            if not _is_engine_exception(e):
+                raise     # harness fault: exit 2
             return [V(ID, 'range', 'multi_part_raised',
                       f'parse_range({case["text"]!r}) raised {e!r}')]
         if got != want:
@@ -440,6 +445,8 @@ def check(case, stats):
         try:
             icm = calculate_icm(pay, chips)
         except Exception as e:  # noqa: BLE001
+            if not _is_engine_exception(e):
+                raise     # harness fault: exit 2
             return [V(ID, 'icm', 'raised', f'{e!r} for {pay} {chips}')]
         tot = sum(pay)
         eps = 1e-9 * max(1.0, tot)
@@ -510,6 +517,8 @@ def check(case, stats):
                     [pokerkit.StandardHighHand],
                     sample_count=case['samples'])
             except Exception as e:  # noqa: BLE001
+                if not _is_engine_exception(e):
+                    raise     # harness fault: exit 2
                 return [V(ID, 'equity', 'raised',
                           f'{e!r} for range {case["range"]} vs {villain}'
                           f' on {board}')]
@@ -547,6 +556,8 @@ def check(case, stats):
                                         Deck[deckname], hand_types,
                                         sample_count=k)
             except Exception as e:  # noqa: BLE001
+                if not _is_engine_exception(e):
+                    raise     # harness fault: exit 2
                 return [V(ID, 'equity', 'raised',
                           f'{e!r} for {case["game"]} {holes} {board}')]
             res.append(eq)
